@@ -25,7 +25,7 @@ echo "$name: demo_clean=$clean_rc build=$build_rc tests=$test_rc demo_mutant=$mu
 if [ $clean_rc = 0 ] && [ $build_rc = 0 ] && [ $test_rc = 0 ] && [ $mut_rc != 0 ]; then
   mkdir -p /verif/seeded/$name
   cp $out/patch.diff /verif/seeded/$name/
-  for f in $out/demo.sh $out/*_test.go $out/*.py $out/meta.json; do [ -f $f ] && cp $f /verif/seeded/$name/; done
+  for f in $out/demo.sh $out/*_test.go $out/*.py $out/*.cc $out/*.h $out/meta.json; do [ -f $f ] && cp $f /verif/seeded/$name/; done
   [ -d $out/model ] && cp -r $out/model /verif/seeded/$name/
   python3 - <<PY
 import json
